@@ -50,9 +50,8 @@ def main():
     ap.add_argument('--only', default=None)
     ap.add_argument('--diff', default=None)
     ap.add_argument('--file', default=None, help='mutant spec file (default mutants/<prop>.json)')
-    ap.add_argument('rest', nargs=argparse.REMAINDER)
-    a = ap.parse_args()
-    rest = [x for x in a.rest if x != '--']
+    a, rest = ap.parse_known_args()
+    rest = [x for x in rest if x != '--']
     results = []
     if a.diff:
         muts = [{'id': os.path.basename(os.path.dirname(a.diff)) or 'diff', 'diff': a.diff}]
